@@ -232,6 +232,23 @@ def apply_op(env, c, op, arg, sym, angles, tag, canary=False):
         if form == "function":
             unchanged()                # the module-level functions are out-of-place
         return out
+    if op == "translate:cirq+noise":
+        # translation for a noisy simulation: both channel types on every gate name of the circuit (twice: the first pass must
+        # leave nothing behind for the second)
+        from tangelo.linq.noisy_simulation import NoiseModel
+        from tangelo.linq.translator.translate_cirq import translate_c_to_cirq
+        nm = NoiseModel()
+        for name in sorted({g[0] for g in before["gates"]} - {"MEASURE", "CMEASURE"}):
+            nm.add_quantum_error(name, "depol", 0.125)
+            nm.add_quantum_error(name, "pauli", [0.0625, 0.125, 0.03125])
+        for _ in range(2):
+            try:
+                translate_c_to_cirq(c, nm)
+            except (ValueError, KeyError, NotImplementedError, TypeError, AttributeError):
+                pass
+            unchanged()
+        check_invariant(env, c, L, width=w0)
+        return c
     if op.startswith("translate:"):
         target = op.split(":")[1]
         try:
@@ -401,7 +418,7 @@ CORE_PRE = [
     ([("H", (0,), None, None, False), ("H", (0,), None, None, False), ("T", (2,), None, None, False)], 5),
 ]
 
-OPS_PLAIN = (["copy", "inverse", "depth", "trim_qubits", "split", "split_notrim"] + [f"translate:{t}" for t in TARGETS])
+OPS_PLAIN = (["copy", "inverse", "depth", "trim_qubits", "split", "split_notrim"] + [f"translate:{t}" for t in TARGETS] + ["translate:cirq+noise"])
 
 
 def _numeric(spec):
